@@ -332,13 +332,17 @@ D3_TABLE = {
 _D_COMMON = ('Constraint-flow lints over HIR/MIR of the files of this property: D1 every witnessed advice cell lies under an activated constraint at a matching '
              'offset; D3 no assigned-cell value is computed and then ignored in gadget-level code; D4 invariant-carrying assigned types and *_unsafe escape '
              'hatches are used only in the frozen who-may-construct table; D5 every (function, check) pair that is unconditional on the reference tree stays '
-             'on every success path. These are necessary conditions for "no unconstrained hint / no dropped constraint". ')
+             'on every success path (D5b: per-element checks stay inside their loop and the loop domain is not narrowed); D6 parallel tuple components are combined '
+             'component-wise; D7 declared integer bounds reach their checks by value; D8 every constraint-emitting call keeps the inputs it consumed; D9 loop-carried '
+             'state is refreshed on every branch; D10 shortcut returns stay guarded by every operand; D11 equality over zip also compares lengths; D12 no dead '
+             'last-element test. These are necessary conditions for "no unconstrained hint / no dropped or re-routed constraint"; tables under rules/ are mined '
+             'from the reference tree and only read at run time. ')
 D_EXPLANATION = {
-    'C04': _D_COMMON + 'NOT decided: that the arithmetic identity, coefficients and decomposition arithmetic are right, and completeness for all inputs — a changed coefficient is invisible here.',
+    'C04': _D_COMMON + 'Plus V1 (padding_flag start domain, repaired defect) and V2 (div_rem wrap-around guard, known finding). NOT decided: that the arithmetic identity, coefficients and decomposition arithmetic are right, and completeness for all inputs — a changed coefficient is invisible here.',
     'C05': _D_COMMON + 'NOT decided: CRT bound arithmetic, limb-bound bookkeeping values, correctness of quotients/carries.',
-    'C06': _D_COMMON + 'NOT decided: the group-law algebra and the exceptional cases of incomplete addition.',
-    'C07': _D_COMMON + 'NOT decided: equality with SHA-2 / RIPEMD / Keccak / BLAKE2 / Poseidon as functions, round constants (third-party Keccak/BLAKE2b chips are outside the repository; only the wrappers are analysed).',
-    'C19': _D_COMMON + 'Covers only the in-circuit parser / base64 chips. NOT decided: language equivalence of compiled automata, determinisation/minimisation, shipped serialized automata, base64 as a function.',
+    'C06': _D_COMMON + 'Plus L1 (radix recomposition of big-integer digits, repaired defect in mul_by_constant). NOT decided: the group-law algebra and the exceptional cases of incomplete addition.',
+    'C07': _D_COMMON + 'Plus T1 (lazy table flags) and S1 (in-circuit and off-circuit Poseidon sponges have the same control skeleton). NOT decided: equality with SHA-2 / RIPEMD / Keccak / BLAKE2 / Poseidon as functions, round constants (third-party Keccak/BLAKE2b chips are outside the repository; only the wrappers are analysed).',
+    'C19': _D_COMMON + 'Plus R1: four structural guards of RawAutomaton for languages included in {epsilon} (repaired defects). NOT decided: language equivalence of compiled automata in general, determinisation/minimisation, shipped serialized automata, base64 as a function.',
 }
 D_FLOORS = {
     'C04': dict(advice=24, gadget_fns=150, d4=30, mustcall=40),
